@@ -35,8 +35,8 @@ theorem isCont_toNat (c : UInt8) (h : Spec.Meaning.isCont c = true) : Utf8.isCon
   simp at h1 h2; omega
 
 /-- One unescaped character of the spec is one `char` of the grammar (strict UTF-8). -/
-theorem utf8Char_spec {b u r : Bytes} (h : utf8Char b = some (u, r)) (hctl : ∀ c r', b = c :: r' → 0x20 ≤ c ∧ c ≠ 0x22 ∧ c ≠ 0x5C) :
-    b = u ++ r ∧ JChar true u := by
+theorem utf8Char_kind {b u r : Bytes} (h : utf8Char b = some (u, r)) (hctl : ∀ c r', b = c :: r' → 0x20 ≤ c ∧ c ≠ 0x22 ∧ c ≠ 0x5C) :
+    b = u ++ r ∧ ((∃ c, u = [c] ∧ 0x20 ≤ c ∧ c < 0x80 ∧ c ≠ 0x22 ∧ c ≠ 0x5C) ∨ Utf8Multi u) := by
   cases b with
   | nil => simp [utf8Char] at h
   | cons b0 r0 =>
@@ -45,7 +45,7 @@ theorem utf8Char_spec {b u r : Bytes} (h : utf8Char b = some (u, r)) (hctl : ∀
     by_cases h80 : b0 < 0x80
     · simp only [h80, if_true, Option.some.injEq, Prod.mk.injEq] at h
       obtain ⟨rfl, rfl⟩ := h
-      exact ⟨rfl, .plain b0 h20 h80 h22 h5c⟩
+      exact ⟨rfl, Or.inl ⟨b0, rfl, h20, h80, h22, h5c⟩⟩
     · simp only [h80, if_false] at h
       by_cases hc2 : b0 < 0xC2
       · simp [hc2] at h
@@ -60,7 +60,7 @@ theorem utf8Char_spec {b u r : Bytes} (h : utf8Char b = some (u, r)) (hctl : ∀
             · next hcont =>
               simp only [Option.some.injEq, Prod.mk.injEq] at h
               obtain ⟨rfl, rfl⟩ := h
-              refine ⟨rfl, .utf8 _ ⟨b0, b1, [], 2, 0x80, 0xBF, rfl, lead2 b0 hc2 he0, rfl, ?_, ?_, by simp⟩⟩
+              refine ⟨rfl, Or.inr ⟨b0, b1, [], 2, 0x80, 0xBF, rfl, lead2 b0 hc2 he0, rfl, ?_, ?_, by simp⟩⟩
               · have := isCont_toNat b1 hcont; simp [Utf8.isCont] at this; omega
               · have := isCont_toNat b1 hcont; simp [Utf8.isCont] at this; omega
             · simp at h
@@ -78,7 +78,7 @@ theorem utf8Char_spec {b u r : Bytes} (h : utf8Char b = some (u, r)) (hctl : ∀
                 obtain ⟨rfl, rfl⟩ := h
                 simp only [Bool.and_eq_true, decide_eq_true_eq] at hcond
                 obtain ⟨⟨hlo, hhi⟩, hc2'⟩ := hcond
-                refine ⟨rfl, .utf8 _ ⟨b0, b1, [b2], 3, _, _, rfl, lead3 b0 he0 hf0, rfl,
+                refine ⟨rfl, Or.inr ⟨b0, b1, [b2], 3, _, _, rfl, lead3 b0 he0 hf0, rfl,
                   ite_le_toNat _ _ _ _ hlo, le_ite_toNat _ _ _ _ hhi, ?_⟩⟩
                 intro c hc; simp at hc; subst hc; exact isCont_toNat _ hc2'
               · simp [hcond] at h
@@ -98,7 +98,7 @@ theorem utf8Char_spec {b u r : Bytes} (h : utf8Char b = some (u, r)) (hctl : ∀
                   obtain ⟨rfl, rfl⟩ := h
                   simp only [Bool.and_eq_true, decide_eq_true_eq] at hcond
                   obtain ⟨⟨⟨hlo, hhi⟩, hc2'⟩, hc3'⟩ := hcond
-                  refine ⟨rfl, .utf8 _ ⟨b0, b1, [b2, b3], 4, _, _, rfl, lead4 b0 hf0 hf5, rfl,
+                  refine ⟨rfl, Or.inr ⟨b0, b1, [b2, b3], 4, _, _, rfl, lead4 b0 hf0 hf5, rfl,
                     ite_le_toNat _ _ _ _ hlo, le_ite_toNat _ _ _ _ hhi, ?_⟩⟩
                   intro c hc; simp at hc
                   rcases hc with rfl | rfl
@@ -106,6 +106,14 @@ theorem utf8Char_spec {b u r : Bytes} (h : utf8Char b = some (u, r)) (hctl : ∀
                   · exact isCont_toNat _ hc3'
                 · simp [hcond] at h
             · simp [hf5] at h
+
+theorem utf8Char_spec {b u r : Bytes} (h : utf8Char b = some (u, r)) (hctl : ∀ c r', b = c :: r' → 0x20 ≤ c ∧ c ≠ 0x22 ∧ c ≠ 0x5C) :
+    b = u ++ r ∧ JChar true u := by
+  obtain ⟨hb, hk⟩ := utf8Char_kind h hctl
+  refine ⟨hb, ?_⟩
+  rcases hk with ⟨c, rfl, h1, h2, h3, h4⟩ | hm
+  · exact .plain c h1 h2 h3 h4
+  · exact .utf8 _ hm
 
 /-! ### escapes -/
 
